@@ -3,3 +3,189 @@ From Coq Require Import List ZArith Bool Lia.
 From Verif Require Import model.HistChunk.
 Import ListNotations.
 Open Scope Z_scope.
+
+(* ------------------------------------------------------------------ *)
+(* strictly increasing lists with a strict lower bound                 *)
+Fixpoint incr (lo : Z) (l : list Z) : Prop :=
+  match l with [] => True | x :: r => lo < x /\ incr x r end.
+
+Lemma incr_weaken lo lo' l : lo' <= lo -> incr lo l -> incr lo' l.
+Proof. destruct l; simpl; intuition lia. Qed.
+
+Lemma incr_In lo l x : incr lo l -> In x l -> lo < x.
+Proof.
+  revert lo. induction l as [|y r IH]; simpl; intros lo H Hin; [tauto|].
+  destruct H as [H1 H2]. destruct Hin as [->|Hin]; [lia|]. specialize (IH _ H2 Hin). lia.
+Qed.
+
+(* ------------------------------------------------------------------ *)
+(* zseq                                                                 *)
+Lemma zseq_nil s n : n <= 0 -> zseq s n = [].
+Proof. intros H. unfold zseq. replace (Z.to_nat n) with 0%nat by lia. reflexivity. Qed.
+
+Lemma zseq_cons s n : 0 < n -> zseq s n = s :: zseq (s + 1) (n - 1).
+Proof.
+  intros H. unfold zseq. replace (Z.to_nat n) with (S (Z.to_nat (n - 1))) by lia.
+  cbn [seq map]. f_equal; [lia|]. rewrite <- seq_shift, map_map. apply map_ext. intros; lia.
+Qed.
+
+Lemma zseq_snoc s n : 0 <= n -> zseq s (n + 1) = zseq s n ++ [s + n].
+Proof.
+  intros H. unfold zseq. replace (Z.to_nat (n + 1)) with (Z.to_nat n + 1)%nat by lia.
+  rewrite seq_app, map_app. cbn [seq map Nat.add]. do 2 f_equal. lia.
+Qed.
+
+Lemma zseq_length s n : length (zseq s n) = Z.to_nat n.
+Proof. unfold zseq. now rewrite map_length, seq_length. Qed.
+
+Lemma zseq_incr_app lo s n l : lo < s -> incr (s + Z.max 0 n - 1) l -> incr lo (zseq s n ++ l).
+Proof.
+  intros Hlo Hl. remember (Z.to_nat n) as k eqn:Hk. revert lo s n Hlo Hl Hk.
+  induction k as [|k IH]; intros lo s n Hlo Hl Hk.
+  - rewrite zseq_nil by lia. simpl. eapply incr_weaken; [|exact Hl]. lia.
+  - rewrite zseq_cons by lia. simpl. split; [lia|]. apply IH; try lia.
+    eapply incr_weaken; [|exact Hl]. lia.
+Qed.
+
+(* ------------------------------------------------------------------ *)
+(* spans: well-formedness, increasing index streams                      *)
+Definition wf_tail (l : list span) : Prop := Forall (fun s => 0 <= s_off s /\ 0 <= s_len s) l.
+Definition wf_spans (l : list span) : Prop :=
+  match l with [] => True | s :: r => 0 <= s_len s /\ wf_tail r end.
+
+Lemma idxs_from_incr next l : wf_tail l -> incr (next - 1) (idxs_from next l).
+Proof.
+  revert next. induction l as [|s r IH]; intros next H; simpl; [exact I|].
+  inversion H as [|? ? [Ho Hl] Hr]; subst.
+  apply zseq_incr_app; [lia|]. specialize (IH (next + s_off s + Z.max 0 (s_len s)) Hr).
+  eapply incr_weaken; [|exact IH]. lia.
+Qed.
+
+Lemma idxs_incr l : wf_spans l -> exists lo, incr lo (idxs l).
+Proof.
+  destruct l as [|s r]; intros H; [exists 0; exact I|]. destruct H as [Hl Hr].
+  exists (s_off s - 1). unfold idxs. simpl. apply zseq_incr_app; [lia|].
+  pose proof (idxs_from_incr (0 + s_off s + Z.max 0 (s_len s)) r Hr) as H.
+  eapply incr_weaken; [|exact H]. lia.
+Qed.
+
+Lemma idxs_from_length next l :
+  Forall (fun s => 0 <= s_len s) l -> Z.of_nat (length (idxs_from next l)) = count_spans l.
+Proof.
+  revert next. induction l as [|s r IH]; intros next H; simpl; [reflexivity|].
+  inversion H; subst. rewrite app_length, zseq_length, Nat2Z.inj_add, IH by assumption. lia.
+Qed.
+
+(* the end position of a span list *)
+Fixpoint end_from (next : Z) (l : list span) : Z :=
+  match l with [] => next | s :: r => end_from (next + s_off s + Z.max 0 (s_len s)) r end.
+
+Lemma idxs_from_app n l1 l2 :
+  idxs_from n (l1 ++ l2) = idxs_from n l1 ++ idxs_from (end_from n l1) l2.
+Proof.
+  revert n. induction l1 as [|s r IH]; intros n; simpl; [reflexivity|].
+  now rewrite IH, app_assoc.
+Qed.
+
+Lemma end_from_app n l1 l2 : end_from n (l1 ++ l2) = end_from (end_from n l1) l2.
+Proof. revert n. induction l1; intros; simpl; auto. Qed.
+
+(* addBucket rebuilds exactly the bucket indices it was fed, whatever they are *)
+Definition ab_inv (st : list span * Z) (p : list Z) : Prop :=
+  fst st <> [] /\ idxs_from 0 (rev (fst st)) = p /\ end_from 0 (rev (fst st)) = snd st + 1 /\
+  match fst st with s :: _ => 1 <= s_len s | [] => True end.
+
+Lemma add_bucket_inv st p b : ab_inv st p -> ab_inv (add_bucket st b) (p ++ [b]).
+Proof.
+  destruct st as [rs last]. intros (Hne & Hi & He & Hl). cbn [fst snd] in *.
+  destruct rs as [|s r]; [congruence|]. unfold add_bucket.
+  destruct (Z.eqb_spec (b - last - 1) 0) as [E|E]; unfold ab_inv; cbn [fst snd].
+  - cbn [rev] in *. rewrite idxs_from_app in *. rewrite end_from_app in *. cbn [idxs_from end_from s_off s_len] in *.
+    rewrite app_nil_r in *. rewrite Z.max_r in He by lia. rewrite Z.max_r by lia.
+    repeat split; [discriminate| |lia|lia].
+    rewrite zseq_snoc by lia. rewrite app_assoc, Hi. do 2 f_equal. lia.
+  - change (rev (mkSpan (b - last - 1) 1 :: s :: r)) with (rev (s :: r) ++ [mkSpan (b - last - 1) 1]).
+    rewrite idxs_from_app, end_from_app. cbn [idxs_from end_from s_off s_len]. rewrite app_nil_r.
+    rewrite He, Hi. repeat split; [discriminate| |lia|lia].
+    f_equal. rewrite zseq_cons by lia. rewrite zseq_nil by lia. f_equal. lia.
+Qed.
+
+Lemma fold_add_bucket_inv l st p :
+  ab_inv st p -> idxs_from 0 (rev (fst (fold_left add_bucket l st))) = p ++ l.
+Proof.
+  revert st p. induction l as [|b l IH]; intros st p H; simpl.
+  - rewrite app_nil_r. apply H.
+  - rewrite (IH _ (p ++ [b])); [now rewrite <- app_assoc|]. now apply add_bucket_inv.
+Qed.
+
+Lemma idxs_spans_of l : idxs (spans_of l) = l.
+Proof.
+  unfold idxs, spans_of. destruct l as [|b l]; [reflexivity|]. cbn [fold_left].
+  apply (fold_add_bucket_inv l _ [b]). unfold add_bucket, ab_inv; cbn [fst snd rev app idxs_from end_from s_off s_len].
+  repeat split; try discriminate; try lia.
+  rewrite app_nil_r. rewrite zseq_cons by lia. rewrite zseq_nil by lia. f_equal. lia.
+Qed.
+
+(* ------------------------------------------------------------------ *)
+(* association lists                                                    *)
+Lemma lookup_zeros k M n : lookup k (combine M (repeat 0 n)) = 0.
+Proof.
+  revert n. induction M as [|m M IH]; intros n; simpl; [reflexivity|].
+  destruct n; simpl; [reflexivity|]. destruct (m =? k); auto.
+Qed.
+
+Lemma lookup_notin lo k ix vals : incr lo ix -> k <= lo -> lookup k (combine ix vals) = 0.
+Proof.
+  revert lo vals. induction ix as [|i ix IH]; intros lo vals H Hk; simpl; [reflexivity|].
+  destruct vals as [|v vals]; simpl; [reflexivity|]. destruct H as [H1 H2].
+  destruct (Z.eqb_spec i k); [lia|]. apply (IH i); [assumption|lia].
+Qed.
+
+(* the values of (ix, vals) laid out on the wider index list M, zero elsewhere *)
+Fixpoint lay (M ix vals : list Z) : list Z :=
+  match M with
+  | [] => []
+  | m :: M' =>
+      match ix, vals with
+      | i :: ix', v :: vals' => if i =? m then v :: lay M' ix' vals' else 0 :: lay M' ix vals
+      | _, _ => 0 :: lay M' ix vals
+      end
+  end.
+
+Lemma lay_length M ix vals : length (lay M ix vals) = length M.
+Proof.
+  revert ix vals. induction M as [|m M IH]; intros; simpl; [reflexivity|].
+  destruct ix, vals; simpl; try (now rewrite IH). destruct (z =? m); simpl; now rewrite IH.
+Qed.
+
+Lemma lay_nil M vals : lay M [] vals = repeat 0 (length M).
+Proof. induction M; simpl; [reflexivity|]. now rewrite IHM. Qed.
+
+Lemma lay_self l vals : length vals = length l -> lay l l vals = vals.
+Proof.
+  revert vals. induction l as [|x l IH]; intros vals H; destruct vals; simpl in *; try discriminate; auto.
+  rewrite Z.eqb_refl. f_equal. apply IH. lia.
+Qed.
+
+Lemma lay_lookup lo M ix vals k :
+  incr lo M -> incr lo ix -> incl ix M -> length vals = length ix ->
+  lookup k (combine M (lay M ix vals)) = lookup k (combine ix vals).
+Proof.
+  revert lo ix vals. induction M as [|m M IH]; intros lo ix vals HM Hix Hin Hlen.
+  - destruct ix as [|i ix]; [reflexivity|]. exfalso. apply (Hin i). now left.
+  - destruct HM as [HM1 HM2]. destruct ix as [|i ix].
+    + simpl. destruct (m =? k); [reflexivity|]. rewrite lay_nil. apply lookup_zeros.
+    + destruct vals as [|v vals]; [discriminate|]. destruct Hix as [Hi1 Hi2]. cbn [lay].
+      destruct (Z.eqb_spec i m) as [->|Hne].
+      * cbn [combine lookup]. destruct (m =? k); [reflexivity|].
+        apply (IH m); auto. intros x Hx. pose proof (incr_In _ _ _ Hi2 Hx).
+        destruct (Hin x (or_intror Hx)) as [->|]; [lia|assumption].
+      * assert (Him : In i M). { destruct (Hin i (or_introl eq_refl)) as [E|]; [congruence|assumption]. }
+        pose proof (incr_In _ _ _ HM2 Him) as Hlt.
+        cbn [combine lookup]. destruct (Z.eqb_spec m k) as [->|Hk].
+        -- destruct (Z.eqb_spec i k); [lia|]. symmetry. apply (lookup_notin i); [assumption|lia].
+        -- change (if i =? k then v else lookup k (combine ix vals)) with (lookup k (combine (i :: ix) (v :: vals))).
+           apply (IH m); auto; [simpl; split; [lia|assumption]|].
+           intros x Hx. destruct (Hin x Hx) as [->|]; [|assumption].
+           destruct Hx as [->|Hx]; [lia|]. pose proof (incr_In _ _ _ Hi2 Hx). lia.
+Qed.
